@@ -37,6 +37,15 @@ EXPLANATION = (
     "to self._node.modify and returns that Deferred; an Adder built without entries is given every item (each loop "
     "iteration, from that iteration's values) through Adder.set_node, which keeps (node, metadata) under the name; "
     "create_subdirectory registers its linking callback on the Deferred it returns. "
+    "(10) the modifiers are discovered from the write sites: every callable that a DirectoryNode method (or a function "
+    "nested in one) hands to self.<node>.modify(..) is resolved to the modifier class's method / the nested function; each one "
+    "whose body stores into the unpacked children map something else than the existing child of that very name (so it can "
+    "bind a name to another child - Adder today, any later fast-path modifier as well) reaches that store for a name that "
+    "may exist only after its overwrite mode was seen truthy and (mode == ONLY_FILES and IDirectoryNode.providedBy(existing "
+    "child)) was excluded; the mode is the attribute the constructor binds unchanged to the parameter the operations give "
+    "their `overwrite` to (or the closure variable for a nested function), every operation with an overwrite parameter "
+    "passes it, no method re-binds it, and the stored metadata is update_metadata's result; (6) and (8) apply to these "
+    "discovered modifiers too. "
     "(8) every key with which Adder / Deleter / MetadataSetter.modify address the children map is normalize(..) of the "
     "name given - decided across the constructor and its callers: the key is normalised in modify, or the attribute it "
     "comes from is bound to normalize(..) in the modifier, or every call site that constructs the modifier (every "
@@ -48,10 +57,12 @@ EXPLANATION = (
     "MutableFileNode.modify under contention (incl. what first_time means on a retry), clock values, the value a "
     "successful operation's Deferred fires with, the NotWriteableError gates of read-only directories, the pre-1.4.0 "
     "'ctime' -> 'linkcrtime' migration, whether a 'no-write' child is actually stored read-only (only the converse is "
-    "decided), and the contents given to a new subdirectory.")
+    "decided), and the contents given to a new subdirectory; for a modifier other than Adder: that the existing entry's "
+    "metadata feeds update_metadata, and what else it does to the map (a single-modify rename inside move_child_to is not "
+    "understood by (3), which then stops with ANALYSIS-ERROR rather than pass).")
 TECHNIQUE = ("static analysis: CFG x fact monitor over modifier bodies, per-iteration definedness of loop locals, "
              "Deferred registration order, argument forwarding, reaching definitions of a name followed from the "
-             "modifier through its constructor to every call site")
+             "modifier through its constructor to every call site; modifier discovery from the self._node.modify write sites")
 
 MOD = "dirnode"
 DN = MOD + ":DirectoryNode"
@@ -114,7 +125,11 @@ def _init_attr_of_param(idx, clsqual, param, exact=None):
     """``self.X`` that __init__ of the class binds to its parameter `param`.
     With `exact` (a list), a binding that transforms the parameter is accepted
     and reported through the list instead of being treated as a vanished anchor."""
-    init = idx.func(clsqual + ".__init__")
+    return _attr_of_param(idx.func(clsqual + ".__init__"), clsqual, param, exact)
+
+
+def _attr_of_param(init, clsqual, param, exact=None):
+    """``self.X`` that the constructor `init` binds to its parameter `param` (see _init_attr_of_param)."""
     if param not in init.params:
         raise AnchorVanished("%s.__init__ has no parameter %s" % (clsqual, param))
     found = []
@@ -333,6 +348,7 @@ class _NameJudge:
         self.cg = get_callgraph(idx)
         self._cache = {}
         self.consulted = []          # (fn, ast_node, what): call sites / bindings the verdict rests on
+        self.extra_modifiers = set()  # names of further modifier classes discovered from the write sites
 
     def _flow(self, fn):
         hit = self._cache.get(fn.qual)
@@ -458,7 +474,8 @@ class _NameJudge:
         return out
 
     def _is_modifier(self, ci):
-        return ci.module.name.endswith(MOD) and ci.name in ("Adder", "Deleter", "MetadataSetter")
+        return ci.module.name.endswith(MOD) and (ci.name in ("Adder", "Deleter", "MetadataSetter")
+                                                 or ci.name in self.extra_modifiers)
 
     def _param(self, fn, name, depth):
         sites = self._sites(fn)
@@ -587,9 +604,231 @@ class _NameJudge:
 
 
 
+# ------------------------------------------------- the modifiers that DirectoryNode writes through, discovered
+class _Modifier:
+    """One callable that some DirectoryNode operation hands to ``self.<mutable file>.modify(..)``."""
+
+    def __init__(self, fn, cls):
+        self.fn = fn                  # the function run on the unpacked contents (Cls.modify, or a nested def)
+        self.cls = cls                # ClassInfo of the modifier object, None for a nested function
+        self.sites = []               # (operation, body, write call, function holding the ctor, ctor call | None)
+        self.cfg = self.fnorm = self.cname = None
+        self.binds = []               # stores into the children map that can bind a name to another child
+        self.restores = []            # stores that put the existing child back under its own name
+        self.owparam = None           # constructor parameter carrying the overwrite mode
+        self.owpos = None
+
+    def label(self):
+        return "%s.%s" % (self.cls.name, self.fn.name) if self.cls is not None else short(self.fn)
+
+
+def _all_bodies(m):
+    yield m
+    for g in m.nested.values():
+        for x in _all_bodies(g):
+            yield x
+
+
+def _outermost(g):
+    while g.parent is not None:
+        g = g.parent
+    return g
+
+
+def _bindings_of_local(g, name):
+    """(function, [values]) of the nearest enclosing function of `g` that binds the local `name` by assignment."""
+    p = g
+    while p is not None:
+        vals = [x.value for x in func_own_nodes(p) if isinstance(x, ast.Assign)
+                and any(isinstance(t, ast.Name) and t.id == name for t in x.targets)]
+        if vals:
+            return p, vals
+        if name in p.params:
+            return p, []
+        p = p.parent
+    return None, []
+
+
+def _discover_modifiers(idx):
+    """Every callable handed to ``self.<attr>.modify(..)`` by a method of DirectoryNode (or a function nested in one),
+    resolved to the function that edits the contents.  Not a list of names: whatever class / nested function the
+    operations write through is found here."""
+    ci = idx.cls(DN)
+    recs, n_writes = {}, 0
+    for m in ci.methods.values():
+        for g in _all_bodies(m):
+            for c in func_own_nodes(g, into_lambda=True):
+                if not (isinstance(c, ast.Call) and isinstance(c.func, ast.Attribute) and c.func.attr == "modify"):
+                    continue
+                recv = attr_path(c.func.value)
+                if not (recv and recv.startswith("self.") and recv.count(".") == 1):
+                    continue
+                n_writes += 1
+                a0 = arg(c, 0, "modifier")
+                if a0 is None:
+                    raise AnchorVanished("%s: %s is not given a modifier" % (short(g), src(g, c)))
+                fn = cls = None
+                owner, ctors = g, [None]
+                if isinstance(a0, ast.Attribute) and isinstance(a0.value, ast.Name):
+                    owner, vals = _bindings_of_local(g, a0.value.id)
+                    classes = set()
+                    for v in vals:
+                        k = idx.resolve_expr_to_class(owner.module, v.func) if isinstance(v, ast.Call) else None
+                        classes.add(k)
+                    if not vals or None in classes or len(classes) != 1:
+                        raise AnchorVanished("%s: the object whose .%s is written through (%s) is not a local bound to one "
+                                             "modifier class" % (short(g), a0.attr, a0.value.id))
+                    cls = classes.pop()
+                    fn = cls.lookup(a0.attr)
+                    ctors = vals
+                elif isinstance(a0, ast.Name):
+                    q = g
+                    while q is not None and fn is None:
+                        fn = q.nested.get(a0.id)
+                        q = q.parent
+                if fn is None:
+                    raise AnchorVanished("%s: the modifier %s handed to %s.modify could not be resolved to a function" % (
+                        short(g), src(g, a0), recv))
+                rec = recs.get(fn.qual)
+                if rec is None:
+                    rec = recs[fn.qual] = _Modifier(fn, cls)
+                for ctor in ctors:
+                    rec.sites.append((m, g, c, owner, ctor))
+    if not n_writes:
+        raise AnchorVanished("no DirectoryNode operation writes through self.<node>.modify(..)")
+    for rec in recs.values():
+        _classify_modifier(idx, rec)
+    return list(recs.values())
+
+
+def _classify_modifier(idx, rec):
+    fn = rec.fn
+    rec.cfg = cfg = fn.cfg()
+    rec.fnorm = fnorm = FlowNorm(fn)
+    rec.cname = cname = _unpacked_container(fn)
+    for n in cfg.nodes:
+        for cc in node_calls(n):
+            if isinstance(cc.func, ast.Attribute) and attr_path(cc.func.value) == cname \
+                    and cc.func.attr in ("update", "setdefault", "__setitem__"):
+                raise AnchorVanished("%s changes the children map through %s: which names it can bind is not analysed" % (
+                    rec.label(), src(fn, cc)))
+    rd = fnorm.rd
+    for (sn, c, k, v) in _subscript_assigns(cfg):
+        if not (isinstance(c, ast.Name) and c.id == cname):
+            continue
+        K, C = fnorm.norm(sn, k), fnorm.norm(sn, c)
+        old0 = "%s[%s][0]" % (C, K)
+        ch = v.elts[0] if isinstance(v, ast.Tuple) and len(v.elts) == 2 else None
+
+        def child_def_ok(dn, ch=ch, old0=old0):
+            if dn.kind != "stmt" or not isinstance(dn.ast, ast.Assign):
+                return False
+            val = dn.ast.value
+            if fnorm.norm(dn, val) == old0:
+                return True
+            return isinstance(val, ast.Call) and call_tail(val) == "create_readonly_node" and bool(val.args) \
+                and (fnorm.norm(dn, val.args[0]) == old0 or (
+                    isinstance(val.args[0], ast.Name) and isinstance(ch, ast.Name) and val.args[0].id == ch.id))
+        same = ch is not None and (fnorm.norm(sn, ch) == old0 or (
+            isinstance(ch, ast.Name) and _last_def_is(cfg, rd, sn, ch.id, child_def_ok)))
+        (rec.restores if same else rec.binds).append((sn, c, k, v))
+    if not rec.binds:
+        return
+    # which constructor parameter carries the overwrite mode: the one an operation gives its own `overwrite` to,
+    # or the one called overwrite
+    if rec.cls is None:
+        return
+    init = rec.cls.lookup("__init__")
+    if init is None:
+        return
+    cps = first_positional_params(init)
+    cand = set()
+    for (m, g, c, owner, ctor) in rec.sites:
+        if ctor is None or "overwrite" not in _outermost(owner).params:
+            continue
+        for i, p_ in enumerate(cps):
+            a = arg(ctor, i, p_)
+            if isinstance(a, ast.Name) and a.id == "overwrite":
+                cand.add(p_)
+    if "overwrite" in cps:
+        cand.add("overwrite")
+    if len(cand) > 1:
+        raise AnchorVanished("%s: more than one constructor parameter could carry the overwrite mode: %s" % (
+            rec.cls.name, sorted(cand)))
+    if cand:
+        rec.owparam = cand.pop()
+        rec.owpos = cps.index(rec.owparam)
+
+
+def _overwrite_gate_check(r, rec, sn, c, k, OW):
+    """Typestate over the modifier body: the store `sn` into the children map is reached for a name that may exist only
+    after the overwrite mode OW was seen truthy and (OW == ONLY_FILES and the existing child is a directory) was excluded."""
+    fn, cfg, fnorm, cname = rec.fn, rec.cfg, rec.fnorm, rec.cname
+    only_files = re.compile(r"^(\w+\.)*ONLY_FILES$")
+    K = fnorm.norm(sn, k)
+    C = fnorm.norm(sn, c)
+    knames = {x.id for x in own_nodes(k) if isinstance(x, ast.Name)} | {cname}
+    kattrs = {attr_path(x) for x in own_nodes(k) if isinstance(x, ast.Attribute) and attr_path(x)}
+    isdir = "IDirectoryNode.providedBy(%s[%s][0])" % (C, K)
+    INIT = (0, False, False)
+
+    def transfer(n, lab, nxt, st):
+        if lab == "exc":
+            return st
+        member, ow, of = st
+        if n.kind == "iter":
+            return INIT if lab == "iter" else st
+        ns = node_stores(n)
+        if ns & knames or ns & kattrs or (cname + "[]") in ns:
+            member, ow, of = 0, False, False
+        if OW in ns:
+            ow = of = False
+        f = fnorm.edge_fact(n, lab)
+        if f:
+            op, l, rr = f
+            if op in ("in", "not in") and l == K and rr == C:
+                member = 1 if op == "in" else 2
+            if (op == "truth" and l == OW) or (op in ("is not", "!=") and {l, rr} == {"False", OW}) \
+                    or (op in ("is", "==") and {l, rr} == {"True", OW}):
+                ow = True
+            if op in ("!=", "is not") and OW in (l, rr) and any(only_files.match(s_ or "") for s_ in (l, rr)):
+                of = True
+            if op == "false" and l == isdir:
+                of = True
+            if op in ("is", "==") and {l, rr} == {"True", OW}:
+                of = True    # overwrite is True, hence not ONLY_FILES
+        return (member, ow, of)
+    visited, parent = explore(cfg, INIT, transfer)
+    r.count(len(visited))
+    reported = set()
+    for (nid, st) in sorted(visited, key=lambda x: (x[0], str(x[1]))):
+        member, ow, of = st
+        if nid != sn.id or member == 2:
+            continue
+        if not ow and "ow" not in reported:
+            reported.add("ow")
+            w = witness(cfg, parent, (nid, st))
+            r.violation(fn, fn.loc(sn.ast), "%s binds %s in the children map although the name may already exist and the "
+                        "overwrite mode %s was not seen truthy: a no-overwrite operation that writes through this modifier "
+                        "replaces an existing entry (path: %s)" % (rec.label(), src(fn, sn.ast.targets[0]), OW, w.brief()), w)
+        elif ow and not of and "of" not in reported:
+            reported.add("of")
+            w = witness(cfg, parent, (nid, st))
+            r.violation(fn, fn.loc(sn.ast), "%s replaces an existing entry (%s) without excluding (%s == ONLY_FILES and the "
+                        "existing child %s[%s][0] is a directory): an only-files operation that writes through this modifier "
+                        "replaces a directory (path: %s)" % (rec.label(), src(fn, sn.ast.targets[0]), OW, cname, src(fn, k),
+                                                            w.brief()), w)
+
+
 # ---------------------------------------------------------------------- run
 def run(ctx: Context):
     idx = ctx.idx
+    _memo = {}
+
+    def modifiers():
+        if "recs" not in _memo:
+            _memo["recs"] = _discover_modifiers(idx)
+        return _memo["recs"]
 
     # -- 1. Adder.modify overwrite gates ------------------------------------
     with ctx.rule("C20.1", "R3", "Adder.modify: children[name] for an existing name is stored only with overwrite truthy "
@@ -1337,6 +1576,18 @@ def run(ctx: Context):
         pos_adder = first_positional_params(idx.func(MOD + ":Adder.__init__")).index("overwrite")
         pos_set = first_positional_params(idx.func(DN + ".set_node")).index("overwrite")
         n_methods = 0
+        # constructor calls of any other modifier class that binds names (discovered from the write sites) forward too
+        other_ctors, closures = {}, []
+        try:
+            for rec in modifiers():
+                if rec.binds and rec.cls is not None and rec.cls.name != "Adder" and rec.owparam is not None:
+                    for (_m, _g, _c, _owner, ctor) in rec.sites:
+                        if ctor is not None:
+                            other_ctors[id(ctor)] = rec
+                elif rec.binds and rec.cls is None:
+                    closures.append(rec)      # a nested function: the mode reaches it through the closure
+        except AnalysisError:
+            pass                      # reported by C20.10
         for m in ci.methods.values():
             if "overwrite" not in m.params:
                 continue
@@ -1358,6 +1609,8 @@ def run(ctx: Context):
                 t = call_tail(x)
                 if t == "Adder":
                     a = arg(x, pos_adder, "overwrite")
+                elif id(x) in other_ctors:
+                    a = arg(x, other_ctors[id(x)].owpos, other_ctors[id(x)].owparam)
                 elif t == "set_node" and isinstance(x.func, ast.Attribute) and attr_path(x.func.value) not in adder_locals:
                     a = arg(x, pos_set, "overwrite")
                 else:
@@ -1367,6 +1620,13 @@ def run(ctx: Context):
                 r.require(isinstance(a, ast.Name) and a.id == "overwrite", m, m.loc(x),
                           "%s does not pass on its overwrite mode in %s (the default True replaces existing entries)" % (
                               short(m), src(m, x)))
+            for rec in closures:
+                if _outermost(rec.fn) is m and "overwrite" not in rec.fn.params:
+                    r.site(rec.fn, rec.fn.node, "modifier reading the mode from the closure")
+                    fwd += 1
+                    r.require(any(isinstance(y, ast.Name) and y.id == "overwrite" and isinstance(y.ctx, ast.Load)
+                                  for y in func_own_nodes(rec.fn, into_lambda=True)), rec.fn, rec.fn.loc(),
+                              "%s never reads the overwrite mode of %s" % (short(rec.fn), short(m)))
             r.require(fwd > 0, m, m.loc(), "%s accepts an overwrite mode but never hands it to Adder / set_node" % short(m))
         if n_methods == 0:
             raise AnchorVanished("no DirectoryNode method takes an overwrite parameter")
@@ -1539,8 +1799,17 @@ def run(ctx: Context):
                   "call site that hands the name in", expected=6) as r:
         judge = _NameJudge(idx)
         reported = set()
-        for cls in ("Adder", "Deleter", "MetadataSetter"):
-            fn = idx.func(MOD + ":" + cls + ".modify")
+        named = [(cls, idx.func(MOD + ":" + cls + ".modify")) for cls in ("Adder", "Deleter", "MetadataSetter")]
+        try:
+            # whatever else the operations write through (found from the write sites) addresses the map by name too
+            for rec in modifiers():
+                if not any(rec.fn is f_ for (_c, f_) in named):
+                    named.append((rec.label().rsplit(".", 1)[0] if rec.cls is not None else rec.label(), rec.fn))
+                    if rec.cls is not None:
+                        judge.extra_modifiers.add(rec.cls.name)
+        except AnalysisError:
+            pass                      # reported by C20.10
+        for (cls, fn) in named:
             cfg = fn.cfg()
             cname = _unpacked_container(fn)
             uses = _children_key_uses(cfg, cname)
@@ -1650,3 +1919,71 @@ def run(ctx: Context):
         if not found:
             raise AnchorVanished("no DirectoryNode operation looks a name up in the children map of self._read()")
         r.count(len(found) + len(judge.consulted))
+
+    # -- 10. every modifier the operations write through honours the overwrite mode ----------------------------
+    with ctx.rule("C20.10", "R3/E4", "every callable that a DirectoryNode operation hands to self._node.modify and that can "
+                  "bind a name to another child (discovered from the write sites, not listed) replaces an existing entry only "
+                  "with the overwrite mode seen truthy and (ONLY_FILES and existing directory) excluded; an operation with "
+                  "an overwrite parameter hands it to the modifier, which keeps it unchanged", expected=8) as r:
+        recs = modifiers()
+        n_binders = 0
+        for rec in recs:
+            fn = rec.fn
+            for (m, g, c, owner, ctor) in rec.sites:
+                r.site(g, c, "write through %s" % rec.label())
+            if not rec.binds:
+                continue
+            n_binders += 1
+            ops_with_ow = [(m, g, c, owner, ctor) for (m, g, c, owner, ctor) in rec.sites
+                           if "overwrite" in _outermost(owner).params]
+            OW = None
+            if rec.cls is None:
+                # a nested function: the overwrite mode is the operation's own parameter, read from the closure
+                shadow = "overwrite" in fn.params or any("overwrite" in node_stores(n) for n in rec.cfg.nodes)
+                if ops_with_ow and not shadow:
+                    OW = "overwrite"
+                elif ops_with_ow:
+                    r.violation(fn, fn.loc(), "%s re-binds 'overwrite': the mode given to %s does not reach the store into "
+                                "the children map" % (rec.label(), short(_outermost(fn))))
+                    continue
+            elif rec.owparam is None:
+                for (m, g, c, owner, ctor) in ops_with_ow:
+                    r.violation(owner, owner.loc(ctor), "%s has an overwrite mode but writes through %s, which binds names in "
+                                "the children map (%s) and is not given the mode: False / ONLY_FILES replace existing entries" % (
+                                    short(_outermost(owner)), rec.label(), src(fn, rec.binds[0][0].ast)))
+            else:
+                exact = []
+                init = rec.cls.lookup("__init__")
+                _i, OW, ow_store = _attr_of_param(init, rec.cls.name, rec.owparam, exact)
+                r.site(init, ow_store, "%s keeps the overwrite mode as %s" % (rec.cls.name, OW))
+                r.require(exact[0], init, init.loc(ow_store), "%s keeps %s instead of the overwrite mode itself (True / False / "
+                          "ONLY_FILES are told apart by identity)" % (rec.cls.name, src(init, ow_store.value)))
+                for (m, g, c, owner, ctor) in ops_with_ow:
+                    a = arg(ctor, rec.owpos, rec.owparam)
+                    r.require(isinstance(a, ast.Name) and a.id == "overwrite", owner, owner.loc(ctor),
+                              "%s does not pass on its overwrite mode in %s (the default of %s applies: existing entries "
+                              "are replaced)" % (short(_outermost(owner)), src(owner, ctor), rec.cls.name))
+                # the mode is not changed on the way to the store
+                for mm in rec.cls.methods.values():
+                    if mm is init:
+                        continue
+                    for n in mm.cfg().nodes:
+                        if OW in node_stores(n):
+                            r.violation(mm, mm.loc(n.ast), "%s re-binds %s after construction" % (short(mm), OW))
+            if OW is None:
+                continue         # no operation with an overwrite mode writes through this modifier
+            for (sn, c, k, v) in rec.binds:
+                r.site(fn, sn.ast, "%s binds a name" % rec.label())
+                _overwrite_gate_check(r, rec, sn, c, k, OW)
+                # the entry it stores carries maintained timestamps
+                if r.require(isinstance(v, ast.Tuple) and len(v.elts) == 2, fn, fn.loc(sn.ast),
+                             "children map entry is not a (child, metadata) pair: %s" % src(fn, v)):
+                    md_ = v.elts[1]
+                    is_um = lambda dn: dn.kind == "stmt" and isinstance(dn.ast, ast.Assign) \
+                        and isinstance(dn.ast.value, ast.Call) and call_tail(dn.ast.value) == "update_metadata"
+                    r.require((isinstance(md_, ast.Call) and call_tail(md_) == "update_metadata") or (
+                        isinstance(md_, ast.Name) and _last_def_is(rec.cfg, rec.fnorm.rd, sn, md_.id, is_um)), fn, fn.loc(sn.ast),
+                        "the metadata %s that %s stores is not the result of update_metadata (timestamps would not be "
+                        "maintained)" % (src(fn, md_), rec.label()))
+        if not n_binders:
+            raise AnchorVanished("none of the modifiers DirectoryNode writes through stores into the children map")
